@@ -588,6 +588,7 @@ class _CUR(GreedySelector):
                 self._orthogonalize(last_selected=c)
 
         self.pi_ = self._compute_pi(self.X_current_)
+        self.pi_[self.selected_idx_[: self.n_selected_]] = 0.0
 
         super()._continue_greedy_search(X, y, n_to_select)
 
@@ -768,6 +769,7 @@ class _PCovCUR(GreedySelector):
                 self._orthogonalize(last_selected=c)
 
         self.pi_ = self._compute_pi(self.X_current_, self.y_current_)
+        self.pi_[self.selected_idx_[: self.n_selected_]] = 0.0
 
         super()._continue_greedy_search(X, y, n_to_select)
 
